@@ -143,9 +143,11 @@ func (c *Compiler) compileTryStmt(node *parser.TryStmt) error {
 	// always emit OpSetupFinally to cleanup
 	if node.Finally != nil {
 		finallyPos = c.emit(node.Finally, OpSetupFinally)
+		c.finallyDepth++
 		if err := c.Compile(node.Finally); err != nil {
 			return err
 		}
+		c.finallyDepth--
 	} else {
 		finallyPos = c.emit(node, OpSetupFinally)
 	}
@@ -670,9 +672,12 @@ func (c *Compiler) compileBranchStmt(node *parser.BranchStmt) error {
 		}
 
 		var pos int
-		if curLoop.lastTryCatchIndex == c.tryCatchIndex {
+		if curLoop.lastTryCatchIndex == c.tryCatchIndex &&
+			curLoop.finallyDepth == c.finallyDepth {
 			pos = c.emit(node, OpJump, 0)
 		} else {
+			// the jump leaves a try statement of the loop body, or the finally
+			// block of one: its handler, consumed or not, must go.
 			c.emit(node, OpFinalizer, curLoop.lastTryCatchIndex+1)
 			pos = c.emit(node, OpJump, 0)
 		}
@@ -684,7 +689,8 @@ func (c *Compiler) compileBranchStmt(node *parser.BranchStmt) error {
 		}
 
 		var pos int
-		if curLoop.lastTryCatchIndex == c.tryCatchIndex {
+		if curLoop.lastTryCatchIndex == c.tryCatchIndex &&
+			curLoop.finallyDepth == c.finallyDepth {
 			pos = c.emit(node, OpJump, 0)
 		} else {
 			c.emit(node, OpFinalizer, curLoop.lastTryCatchIndex+1)
